@@ -77,7 +77,12 @@ PRECONDITION_WORDS = ('is_square', 'is_symmetric(', 'is_lower_triangular', 'is_u
 def idiom_signature(lines):
     """coarse structure of a skeleton: how many loops / array stores / swaps.  Siblings written in different loop idioms (for vs
     while, fused vs split loops, helper extracted) are not comparable statement by statement"""
-    return (sum(l.startswith('loop ') for l in lines), sum(l.startswith('store A') for l in lines), sum(l.startswith('swap ') for l in lines))
+    import re as _re
+    # index-on-index tests (`cond (i0 == i1)`) belong to the iteration structure too: a peeled last iteration (loop to i instead of
+    # i+1, no `i == j` case) is the same algorithm in another shape
+    idx_conds = sum(bool(_re.match(r'cond \((not )?\(?i\d+ (==|!=|<|<=) i\d+', l)) for l in lines)
+    return (sum(l.startswith('loop ') for l in lines), sum(l.startswith('store A') for l in lines), sum(l.startswith('swap ') for l in lines),
+            idx_conds)
 
 
 def algorithmic(lines):
@@ -146,6 +151,40 @@ def run(prog, rep, tier, repo):
         else:
             rep.undecided('pivot-guard', key, 'cholesky() neither factorises nor unwraps try_cholesky()')
     rep.floor('pivot-guard', 2, 'slice and Matrix Cholesky')
+
+    # every-entry: the factor is computed entry by entry from inner products of earlier entries; an entry of the factor can be non-zero
+    # where the input is zero (fill-in), so no store into the factor may be skipped on an (in)equality test of a raw input element
+    for k in (D + 'cholesky::try_cholesky', M + '::cholesky', D + 'lu::lu', M + '::lu'):
+        f = prog.func(k)
+        key = 'every-entry:%s' % k
+        if f is None:
+            continue
+        rep.touch(k)
+        a_in = ('arg', 1, f.names.get(1))
+
+        def raw_input_read(t, a_in=a_in):
+            # an element of the input itself: a[..] / self[[i, j]] / self.data[..] -- not of a working copy
+            z = t
+            while tag(z) in ('index', 'field') or (tag(z) == 'call' and short(z[1]) in ('index', 'deref', 'data') and z[2]):
+                z = z[1] if tag(z) in ('index', 'field') else z[2][0]
+            return z == a_in and z != t
+        stores = [s_ for s_ in f.stores() if tag(s_.target) != 'local']
+        bad = []
+        for s_ in stores:
+            # control dependence, not dominance: `if i != j && a[..] == 0. { continue }` joins with the i == j path before the store
+            for cn in f.control_conds(s_.bb):
+                if tag(cn) == 'bin' and cn[1] in ('Eq', 'Ne') and len(cn) > 4 and cn[4] in ('f64', 'f32') and \
+                        (raw_input_read(cn[2]) or raw_input_read(cn[3])):
+                    bad.append((s_, cn, 'decided one way'))
+        if not stores:
+            rep.undecided('every-entry', key, 'no element store found in the factorisation', site_of(f.body), proof=False)
+        elif bad:
+            s_, cn, v = bad[0]
+            rep.viol('every-entry', key, 'the store %s := .. happens only when `%s` is %s: entries of the factor are skipped where the input has a zero, '
+                     'but the factor of a matrix with zeros is in general not zero there (fill-in)' % (show(s_.target)[:50], show(cn)[:60], v), site_of(s_.span))
+        else:
+            rep.ok('every-entry', key, '%d element stores, none conditional on an (in)equality test of an input element' % len(stores))
+    rep.floor('every-entry', 4, 'slice and Matrix Cholesky and LU')
 
     # ------------------------------------------------------------------ D2 siblings
     for name, ka, kb, ra, rb, sa, sb in PAIRS:
